@@ -42,6 +42,9 @@ type c20Case struct {
 func c20Run(c c20Case) Outcome {
 	var o Outcome
 	res := inBubble(theT, func() { o = c20RunInBubble(c) })
+	if o, stuck := stuckVerdict(res); stuck {
+		return o
+	}
 	if res.Panic != "" {
 		return viol("panic@"+topFrame(res.Stack), "%s\n%s", res.Panic, res.Stack)
 	}
